@@ -7,25 +7,27 @@ Open Scope R_scope.
 
 (* ---- derivative of a weighted sum of per-event functions ---- *)
 
-Lemma is_derive_rdot (w : list R) (Fs : list (R -> R)) (dFs : list R) t :
+Lemma is_derive_const_R (c t : R) : is_derive (fun _ : R => c) t 0.
+Proof. auto_derive; [exact I | ring]. Qed.
+
+Lemma is_derive_rdot (w : list R) (Fs : list (R -> R)) (dFs : list R) (t : R) :
   Forall2 (fun (F : R -> R) (d : R) => is_derive F t d) Fs dFs ->
   is_derive (fun u => rdot w (evalat Fs u)) t (rdot w dFs).
 Proof.
   intros H. revert w. induction H as [|F d Fs dFs HF _ IH]; intros w.
-  - unfold evalat. cbn [map]. rewrite rdot_nil_r.
-    apply (is_derive_ext (fun _ => 0)); [intros u; rewrite rdot_nil_r; reflexivity|]. apply is_derive_const.
+  - unfold evalat. cbn [map]. rewrite rdot_nil_r. apply is_derive_const_R.
   - destruct w as [|a w].
-    + cbn [rdot]. apply is_derive_const.
+    + cbn [rdot]. apply is_derive_const_R.
     + unfold evalat. cbn [map rdot]. fold (evalat Fs).
       apply (is_derive_plus (fun u => a * F u) (fun u => rdot w (evalat Fs u)) t (a * d) (rdot w dFs)).
       * apply (is_derive_scal F t a d). exact HF.
       * apply IH.
 Qed.
 
-Lemma is_derive_ln_pos y : 0 < y -> is_derive ln y (/ y).
+Lemma is_derive_ln_pos (y : R) : 0 < y -> is_derive ln y (/ y).
 Proof. intros H. apply is_derive_Reals. apply derivable_pt_lim_ln. exact H. Qed.
 
-Lemma is_derive_ln_comp (F : R -> R) t d : 0 < F t -> is_derive F t d -> is_derive (fun u => ln (F u)) t (d / F t).
+Lemma is_derive_ln_comp (F : R -> R) (t d : R) : 0 < F t -> is_derive F t d -> is_derive (fun u => ln (F u)) t (d / F t).
 Proof.
   intros Hp HF. unfold Rdiv.
   apply (is_derive_comp ln F t (/ F t) d); [apply is_derive_ln_pos; exact Hp | exact HF].
@@ -33,7 +35,7 @@ Qed.
 
 (* ---- clip_log ---- *)
 
-Lemma is_derive_clip_log_hi x : eps_clip < x -> is_derive clip_log x (/ x).
+Lemma is_derive_clip_log_hi (x : R) : eps_clip < x -> is_derive clip_log x (/ x).
 Proof.
   intros H. apply (is_derive_ext_loc ln clip_log).
   - assert (Hd : 0 < x - eps_clip) by lra.
@@ -43,7 +45,7 @@ Proof.
   - apply is_derive_ln_pos. unfold eps_clip in H. lra.
 Qed.
 
-Lemma is_derive_clip_log_lo x : x < eps_clip ->
+Lemma is_derive_clip_log_lo (x : R) : x < eps_clip ->
   is_derive clip_log x (/ eps_clip - (x - eps_clip) / (eps_clip * eps_clip)).
 Proof.
   intros H.
@@ -77,4 +79,309 @@ Proof.
     replace (/ eps_clip - (x - eps_clip) / (eps_clip * eps_clip) - / eps_clip) with (- ((x - eps_clip) / (eps_clip * eps_clip))) by lra.
     rewrite Rabs_Ropp. unfold Rdiv. rewrite Rabs_mult. f_equal. apply Rabs_right.
     apply Rle_ge. left. apply Rinv_0_lt_compat. nra.
+Qed.
+
+(* ---- gradient of the default / extended NLL ---- *)
+
+Lemma is_derive_rdot_clip (w : list R) (Fs : list (R -> R)) (dF : list R) (t : R) :
+  Forall2 (fun (F : R -> R) (d : R) => is_derive F t d) Fs dF ->
+  List.Forall (fun F : R -> R => eps_clip < F t) Fs ->
+  is_derive (fun u => rdot w (map clip_log (evalat Fs u))) t (rdot w (rzip Rdiv dF (evalat Fs t))).
+Proof.
+  intros H. revert w. induction H as [|F d Fs dFs HF _ IH]; intros w Hp.
+  - unfold evalat. cbn [map rzip]. rewrite !rdot_nil_r. apply is_derive_const_R.
+  - inversion Hp as [|F' Fs' HF0 Hp' E]; subst. destruct w as [|a w].
+    + cbn [rdot]. apply is_derive_const_R.
+    + unfold evalat. cbn [map rzip rdot]. fold (evalat Fs).
+      apply (is_derive_plus (fun u => a * clip_log (F u)) (fun u => rdot w (map clip_log (evalat Fs u))) t
+               (a * (d / F t)) (rdot w (rzip Rdiv dFs (evalat Fs t)))).
+      * apply (is_derive_scal (fun u => clip_log (F u)) t a (d / F t)). unfold Rdiv.
+        apply (is_derive_comp clip_log F t (/ F t) d); [apply is_derive_clip_log_hi; exact HF0 | exact HF].
+      * apply IH. exact Hp'.
+Qed.
+
+Lemma is_derive_int_f ext (Iu : R -> R) (t dI : R) :
+  is_derive Iu t dI -> (ext = false -> 0 < Iu t) ->
+  is_derive (fun u => int_f ext (Iu u)) t (dI * int_g ext (Iu t)).
+Proof.
+  intros HI Hp. destruct ext; cbn [int_f int_g].
+  - replace (dI * 1) with dI by ring. exact HI.
+  - apply (is_derive_comp ln Iu t (/ Iu t) dI); [apply is_derive_ln_pos; auto | exact HI].
+Qed.
+
+(* d/dtheta of the NLL value returned by FCN.nll_grad is the returned gradient component *)
+Theorem grad_default_is_derive ext (w v : list R) (Fs Gs : list (R -> R)) (dF dG : list R) (t : R) :
+  Forall2 (fun (F : R -> R) (d : R) => is_derive F t d) Fs dF ->
+  Forall2 (fun (G : R -> R) (d : R) => is_derive G t d) Gs dG ->
+  List.Forall (fun F : R -> R => eps_clip < F t) Fs ->
+  (ext = false -> 0 < rdot v (evalat Gs t)) ->
+  is_derive (fun u => nll_gradval ext w (evalat Fs u) v (evalat Gs u)) t
+            (grad_default ext w (evalat Fs t) dF v (evalat Gs t) dG).
+Proof.
+  intros HF HG Hp HI. unfold nll_gradval, grad_default.
+  apply (is_derive_plus (fun u => - rdot w (map clip_log (evalat Fs u)))
+           (fun u => rsum w * int_f ext (rdot v (evalat Gs u))) t
+           (- rdot w (rzip Rdiv dF (evalat Fs t))) (rsum w * (rdot v dG * int_g ext (rdot v (evalat Gs t))))).
+  - apply (is_derive_opp (fun u => rdot w (map clip_log (evalat Fs u))) t). apply is_derive_rdot_clip; assumption.
+  - apply (is_derive_scal (fun u => int_f ext (rdot v (evalat Gs u))) t (rsum w)).
+    apply (is_derive_int_f ext (fun u => rdot v (evalat Gs u)) t (rdot v dG)); [apply is_derive_rdot; exact HG | exact HI].
+Qed.
+
+(* ---- Hessian: derivative of the gradient component k along coordinate l ---- *)
+
+Lemma is_derive_quot (A F : R -> R) (t a' f' : R) :
+  is_derive A t a' -> is_derive F t f' -> F t <> 0 ->
+  is_derive (fun u => A u / F u) t (a' / F t - A t * f' / (F t * F t)).
+Proof.
+  intros HA HF H0. auto_derive.
+  - repeat split; auto; [exists a'; exact HA | exists f'; exact HF].
+  - replace (Derive (fun x : R => A x) t) with a' by (symmetry; apply is_derive_unique; exact HA).
+    replace (Derive (fun x : R => F x) t) with f' by (symmetry; apply is_derive_unique; exact HF). field. exact H0.
+Qed.
+
+Lemma is_derive_rdot_quot (w : list R) (Fs As : list (R -> R)) (dFl d2F : list R) (t : R) :
+  Forall2 (fun (F : R -> R) (d : R) => is_derive F t d) Fs dFl ->
+  Forall2 (fun (A : R -> R) (d : R) => is_derive A t d) As d2F ->
+  List.Forall (fun F : R -> R => F t <> 0) Fs ->
+  is_derive (fun u => rdot w (rzip Rdiv (evalat As u) (evalat Fs u))) t
+            (rdot w (hterms (evalat Fs t) (evalat As t) dFl d2F)).
+Proof.
+  intros HF. revert w As d2F. induction HF as [|F d Fs dFs HF1 _ IH]; intros w As d2F HA Hp.
+  - unfold evalat. cbn [map]. destruct As; cbn [map rzip hterms]; rewrite !rdot_nil_r; apply is_derive_const_R.
+  - inversion Hp as [|F' Fs' HF0 Hp' E]; subst.
+    destruct HA as [|A a2 As d2Fs HA1 HA].
+    + unfold evalat. cbn [map rzip hterms]. rewrite !rdot_nil_r. apply is_derive_const_R.
+    + destruct w as [|a w].
+      * cbn [rdot]. apply is_derive_const_R.
+      * unfold evalat. cbn [map rzip hterms rdot]. fold (evalat Fs). fold (evalat As).
+        apply (is_derive_plus (fun u => a * (A u / F u)) (fun u => rdot w (rzip Rdiv (evalat As u) (evalat Fs u))) t
+                 (a * (a2 / F t - A t * d / (F t * F t))) (rdot w (hterms (evalat Fs t) (evalat As t) dFs d2Fs))).
+        -- apply (is_derive_scal (fun u => A u / F u) t a). apply is_derive_quot; assumption.
+        -- apply IH; assumption.
+Qed.
+
+Lemma is_derive_int_g_prod ext (Ju Iu : R -> R) (t dJ dI : R) :
+  is_derive Ju t dJ -> is_derive Iu t dI -> (ext = false -> Iu t <> 0) ->
+  is_derive (fun u => Ju u * int_g ext (Iu u)) t
+            (Ju t * dI * int_h ext (Iu t) + dJ * int_g ext (Iu t)).
+Proof.
+  intros HJ HI H0. destruct ext; cbn [int_g int_h].
+  - apply (is_derive_ext Ju); [intros u; rewrite Rmult_1_r; reflexivity|]. replace (Ju t * dI * 0 + dJ * 1) with dJ by ring. exact HJ.
+  - specialize (H0 eq_refl). auto_derive.
+    + repeat split; auto; [exists dJ; exact HJ | exists dI; exact HI].
+    + replace (Derive (fun x : R => Ju x) t) with dJ by (symmetry; apply is_derive_unique; exact HJ).
+      replace (Derive (fun x : R => Iu x) t) with dI by (symmetry; apply is_derive_unique; exact HI). field. exact H0.
+Qed.
+
+Theorem hess_default_is_derive ext (w v : list R) (Fs As Gs Bs : list (R -> R)) (dFl d2F dGl d2G : list R) (t : R) :
+  Forall2 (fun (F : R -> R) (d : R) => is_derive F t d) Fs dFl ->
+  Forall2 (fun (A : R -> R) (d : R) => is_derive A t d) As d2F ->
+  Forall2 (fun (G : R -> R) (d : R) => is_derive G t d) Gs dGl ->
+  Forall2 (fun (B : R -> R) (d : R) => is_derive B t d) Bs d2G ->
+  List.Forall (fun F : R -> R => F t <> 0) Fs ->
+  (ext = false -> rdot v (evalat Gs t) <> 0) ->
+  is_derive (fun u => grad_default ext w (evalat Fs u) (evalat As u) v (evalat Gs u) (evalat Bs u)) t
+            (hess_default ext w (evalat Fs t) (evalat As t) dFl d2F v (evalat Gs t) (evalat Bs t) dGl d2G).
+Proof.
+  intros HF HA HG HB Hp HI. unfold grad_default, hess_default.
+  replace (- rdot w (hterms (evalat Fs t) (evalat As t) dFl d2F)
+           + rsum w * (rdot v (evalat Bs t) * rdot v dGl * int_h ext (rdot v (evalat Gs t)))
+           + rsum w * (rdot v d2G * int_g ext (rdot v (evalat Gs t))))
+    with (- rdot w (hterms (evalat Fs t) (evalat As t) dFl d2F)
+          + rsum w * (rdot v (evalat Bs t) * rdot v dGl * int_h ext (rdot v (evalat Gs t))
+                      + rdot v d2G * int_g ext (rdot v (evalat Gs t)))) by ring.
+  apply (is_derive_plus (fun u => - rdot w (rzip Rdiv (evalat As u) (evalat Fs u)))
+           (fun u => rsum w * (rdot v (evalat Bs u) * int_g ext (rdot v (evalat Gs u)))) t).
+  - apply (is_derive_opp (fun u => rdot w (rzip Rdiv (evalat As u) (evalat Fs u))) t). apply is_derive_rdot_quot; assumption.
+  - apply (is_derive_scal (fun u => rdot v (evalat Bs u) * int_g ext (rdot v (evalat Gs u))) t (rsum w)).
+    apply (is_derive_int_g_prod ext (fun u => rdot v (evalat Bs u)) (fun u => rdot v (evalat Gs u)) t (rdot v d2G) (rdot v dGl));
+      [apply is_derive_rdot; exact HB | apply is_derive_rdot; exact HG | exact HI].
+Qed.
+
+(* ---- Hessian-vector product ---- *)
+
+(* the hand-assembled H.p of grad_hessp_batch is row k of the Hessian times p, when the two
+   autodiff products are (H_lndata p)_k and (H_int p)_k *)
+Theorem hessp_is_hess_times_p ext sw int gik (hln hint gi p : list R) :
+  length hln = length p -> length hint = length p -> length gi = length p ->
+  hessp_default ext sw int (rdot hln p) (rdot hint p) gik (rdot gi p)
+  = row_dot (hess_row ext sw int gik hln hint gi) p.
+Proof.
+  unfold hessp_default, row_dot. revert hln hint gi.
+  induction p as [|q p IH]; intros hln hint gi L1 L2 L3.
+  - rewrite !rdot_nil_r. ring.
+  - destruct hln as [|a hln]; [discriminate|]. destruct hint as [|b hint]; [discriminate|]. destruct gi as [|c gi]; [discriminate|].
+    cbn [hess_row rdot]. cbn [length] in L1, L2, L3.
+    rewrite <- (IH hln hint gi) by (injection L1; injection L2; injection L3; auto). ring.
+Qed.
+
+Lemma rdot_rzip_plus (a b p : list R) : length a = length b ->
+  rdot (rzip Rplus a b) p = rdot a p + rdot b p.
+Proof.
+  revert b p. induction a as [|x a IH]; intros [|y b] p L; cbn [length] in L; try discriminate.
+  - cbn. lra.
+  - destruct p as [|q p]; cbn [rzip rdot]; [lra|]. rewrite IH by (injection L; auto). ring.
+Qed.
+
+Lemma rdot_repeat0 n p : rdot (repeat 0 n) p = 0.
+Proof. revert p. induction n as [|n IH]; intros [|q p]; cbn [repeat rdot]; try lra. rewrite IH. ring. Qed.
+
+Lemma rdot_unit_row k n c p : (k < n)%nat -> rdot (unit_row k n c) p = c * nth k p 0.
+Proof.
+  revert k p. induction n as [|n IH]; intros k p H; [lia|].
+  destruct k as [|k]; destruct p as [|q p]; cbn [unit_row rdot nth]; try ring.
+  - rewrite rdot_repeat0. ring.
+  - rewrite IH by lia. ring.
+Qed.
+
+Lemma length_unit_row k n c : length (unit_row k n c) = n.
+Proof.
+  revert k. induction n as [|n IH]; intros k; [destruct k; reflexivity|]. destruct k; cbn [unit_row length]; [rewrite repeat_length | rewrite IH]; reflexivity.
+Qed.
+
+(* FCN.grad_hessp: (H + H_c) p with the diagonal constraint Hessian - the statement defect F5 violated *)
+Theorem hessp_with_constraint (hrow p : list R) k ch :
+  (k < length hrow)%nat ->
+  hessp_total (row_dot hrow p) ch (nth k p 0) = row_dot (rzip Rplus hrow (unit_row k (length hrow) ch)) p.
+Proof.
+  intros H. unfold hessp_total, row_dot.
+  rewrite rdot_rzip_plus by (rewrite length_unit_row; reflexivity). rewrite rdot_unit_row by exact H. reflexivity.
+Qed.
+
+(* ---- Gaussian constraints ---- *)
+
+Theorem gauss_grad_is_derive (th mean sigma : R) :
+  is_derive (fun x => gauss_one (x, mean, sigma)) th (gauss_grad (th, mean, sigma)).
+Proof. unfold gauss_one, gauss_grad. cbv beta iota. auto_derive; [exact I|]. unfold Rdiv. set (k := / (sigma * sigma)). field. Qed.
+
+Theorem gauss_hess_is_derive (th mean sigma : R) :
+  is_derive (fun x => gauss_grad (x, mean, sigma)) th (gauss_hess (th, mean, sigma)).
+Proof. unfold gauss_grad, gauss_hess. cbv beta iota. auto_derive; [exact I|]. unfold Rdiv. set (k := / (sigma * sigma)). field. Qed.
+
+(* value / gradient / Hessian of "NLL + constraint" are sums (linearity of the derivative) *)
+Theorem total_is_derive (N : R -> R) (th g mean sigma : R) :
+  is_derive N th g ->
+  is_derive (fun x => fcn_total (N x) [(x, mean, sigma)]) th (grad_total g (gauss_grad (th, mean, sigma))).
+Proof.
+  intros H. unfold fcn_total, grad_total, gauss_term. cbn [map rsum].
+  apply (is_derive_plus N (fun x => gauss_one (x, mean, sigma) + 0) th g (gauss_grad (th, mean, sigma))); [exact H|].
+  apply (is_derive_ext (fun x => gauss_one (x, mean, sigma))); [intros x; rewrite Rplus_0_r; reflexivity|].
+  apply gauss_grad_is_derive.
+Qed.
+
+(* ---- bounded parameters ---- *)
+
+Lemma sqrt_arg_pos x : 0 < x * x + 1.
+Proof. nra. Qed.
+
+Theorem bound_dydx_is_derive (a b x : R) :
+  is_derive (y_sin a b) x (dy_sin a b x) /\ is_derive (y_lo a) x (dy_lo x) /\ is_derive (y_up b) x (dy_up x).
+Proof.
+  pose proof (sqrt_arg_pos x) as P. assert (Q : 0 < sqrt (x * x + 1)) by (apply sqrt_lt_R0; exact P).
+  split; [|split].
+  - unfold y_sin, dy_sin. auto_derive; [exact I|]. field.
+  - unfold y_lo, dy_lo. auto_derive; [exact P|]. field. lra.
+  - unfold y_up, dy_up. auto_derive; [exact P|]. field. lra.
+Qed.
+
+Theorem bound_d2ydx2_is_derive (a b x : R) :
+  is_derive (dy_sin a b) x (d2y_sin a b x) /\ is_derive dy_lo x (d2y_lo x) /\ is_derive dy_up x (d2y_up x).
+Proof.
+  pose proof (sqrt_arg_pos x) as P. assert (Q : 0 < sqrt (x * x + 1)) by (apply sqrt_lt_R0; exact P).
+  assert (S : sqrt (x * x + 1) * sqrt (x * x + 1) = x * x + 1) by (apply sqrt_sqrt; lra).
+  split; [|split].
+  - unfold dy_sin, d2y_sin. auto_derive; [exact I|]. field.
+  - unfold dy_lo, d2y_lo. auto_derive; [repeat split; [exact P | lra]|].
+    set (r := sqrt (x * x + 1)) in *. replace (x * x + 1) with (r * r) by lra.
+    field_simplify_eq; [|lra]. nra.
+  - unfold dy_up, d2y_up. auto_derive; [repeat split; [exact P | lra]|].
+    set (r := sqrt (x * x + 1)) in *. replace (x * x + 1) with (r * r) by lra.
+    field_simplify_eq; [|lra]. nra.
+Qed.
+
+(* the transforms map into the bounds *)
+Theorem bound_range (a b x : R) : a <= b -> a <= y_sin a b x <= b /\ a <= y_lo a x /\ y_up b x <= b.
+Proof.
+  intros H. pose proof (SIN_bound x) as [S1 S2].
+  assert (Q : 1 <= sqrt (x * x + 1)).
+  { rewrite <- sqrt_1 at 1. apply sqrt_le_1_alt. nra. }
+  unfold y_sin, y_lo, y_up. repeat split; try nra.
+Qed.
+
+(* trans_fcn_grad : d/dx F(y(x)) = F'(y) y' *)
+Theorem trans_fcn_grad_chain (F Y : R -> R) (x gy dy : R) :
+  is_derive F (Y x) gy -> is_derive Y x dy -> is_derive (fun u => F (Y u)) x (trans_grad gy dy).
+Proof. intros HF HY. unfold trans_grad. rewrite Rmult_comm. apply (is_derive_comp F Y x gy dy); assumption. Qed.
+
+(* trans_f_grad_hess, diagonal entry: d/dx [ G(y(x)) y'(x) ] = y' H y' + G y'' *)
+Theorem trans_f_grad_hess_chain_diag (G Y dY : R -> R) (x hy d2y : R) :
+  is_derive G (Y x) hy -> is_derive Y x (dY x) -> is_derive dY x d2y ->
+  is_derive (fun u => trans_grad (G (Y u)) (dY u)) x (trans_hess hy (dY x) (dY x) (G (Y x)) d2y true).
+Proof.
+  intros HG HY HdY. unfold trans_grad, trans_hess.
+  assert (HC : is_derive (fun u => G (Y u)) x (hy * dY x)).
+  { rewrite Rmult_comm. apply (is_derive_comp G Y x hy (dY x)); assumption. }
+  replace (dY x * hy * dY x + G (Y x) * d2y) with ((hy * dY x) * dY x + G (Y x) * d2y) by ring.
+  apply (is_derive_mult (fun u => G (Y u)) dY x (hy * dY x) d2y); [exact HC | exact HdY | intros n m; apply Rmult_comm].
+Qed.
+
+(* off-diagonal entry: G_k depends on x_l only through y_l; y'_k is a constant c there *)
+Theorem trans_f_grad_hess_chain_offdiag (Gk Yl : R -> R) (xl hkl dyl c : R) :
+  is_derive Gk (Yl xl) hkl -> is_derive Yl xl dyl ->
+  is_derive (fun u => trans_grad (Gk (Yl u)) c) xl (trans_hess hkl c dyl 0 0 false).
+Proof.
+  intros HG HY. unfold trans_grad, trans_hess.
+  replace (c * hkl * dyl) with ((dyl * hkl) * c) by ring.
+  apply (is_derive_ext (fun u => c * Gk (Yl u))); [intros u; apply Rmult_comm|].
+  replace (dyl * hkl * c) with (c * (dyl * hkl)) by ring.
+  apply (is_derive_scal (fun u => Gk (Yl u)) xl c). apply (is_derive_comp Gk Yl xl hkl dyl); assumption.
+Qed.
+
+(* trans_grad_hessp: row k of H_x times p, from the y-space product with p .* y' *)
+Theorem trans_grad_hessp_chain (hrow dys p : list R) (dyk gk d2k pk : R) :
+  length hrow = length p -> length dys = length p ->
+  trans_hessp (rdot hrow (rzip Rmult p dys)) dyk gk d2k pk
+  = rdot (rzip (fun h dy => trans_hess h dyk dy 0 0 false) hrow dys) p + gk * d2k * pk.
+Proof.
+  unfold trans_hessp, trans_hess. intros L1 L2. f_equal.
+  revert hrow dys L1 L2. induction p as [|q p IH]; intros hrow dys L1 L2.
+  - destruct hrow; destruct dys; cbn; try ring; discriminate.
+  - destruct hrow as [|h hrow]; [discriminate|]. destruct dys as [|d dys]; [discriminate|].
+    cbn [rzip rdot]. cbn [length] in L1, L2. rewrite <- (IH hrow dys) by (injection L1; injection L2; auto). ring.
+Qed.
+
+(* ---- cfit: per-event chain rule through I_sig ---- *)
+
+Lemma cfit_event_is_derive (c1 c2 : R) (S Iu : R -> R) (t dS dI : R) :
+  is_derive S t dS -> is_derive Iu t dI -> Iu t <> 0 ->
+  is_derive (fun u => c1 * S u / Iu u + c2) t (c1 * (dS * Iu t - S t * dI) / (Iu t * Iu t)).
+Proof.
+  intros HS HI H0. auto_derive.
+  - repeat split; auto; [exists dS; exact HS | exists dI; exact HI].
+  - replace (Derive (fun x : R => S x) t) with dS by (symmetry; apply is_derive_unique; exact HS).
+    replace (Derive (fun x : R => Iu x) t) with dI by (symmetry; apply is_derive_unique; exact HI). field. exact H0.
+Qed.
+
+Theorem cfit_grad_is_derive (c1 : R) (W c2 : list R) (Ss : list (R -> R)) (dS : list R) (Iu : R -> R) (t dI : R) :
+  Forall2 (fun (S : R -> R) (d : R) => is_derive S t d) Ss dS ->
+  is_derive Iu t dI -> Iu t <> 0 ->
+  List.Forall (fun x => 0 < x) (cfit_P c1 (Iu t) (evalat Ss t) c2) ->
+  is_derive (fun u => - rdot W (map ln (cfit_P c1 (Iu u) (evalat Ss u) c2))) t
+            (grad_cfit c1 W (evalat Ss t) dS c2 (Iu t) dI).
+Proof.
+  intros HS HI H0 HP. unfold grad_cfit.
+  apply (is_derive_opp (fun u => rdot W (map ln (cfit_P c1 (Iu u) (evalat Ss u) c2))) t).
+  revert W c2 HP. induction HS as [|S d Ss dSs HS1 _ IH]; intros W c2 HP.
+  - unfold evalat. cbn [map cfit_P cfit_dP rzip]. rewrite !rdot_nil_r. apply is_derive_const_R.
+  - destruct c2 as [|c c2].
+    + unfold evalat. cbn [map cfit_P cfit_dP rzip]. rewrite !rdot_nil_r. apply is_derive_const_R.
+    + unfold evalat in *. cbn [map cfit_P cfit_dP rzip] in *. fold (evalat Ss) in *.
+      inversion HP as [|p0 ps Hp0 HP' E]; subst.
+      destruct W as [|a W]; [cbn [rdot]; apply is_derive_const_R|].
+      cbn [rdot].
+      apply (is_derive_plus (fun u => a * ln (c1 * S u / Iu u + c)) (fun u => rdot W (map ln (cfit_P c1 (Iu u) (evalat Ss u) c2))) t).
+      * apply (is_derive_scal (fun u => ln (c1 * S u / Iu u + c)) t a).
+        apply (is_derive_ln_comp (fun u => c1 * S u / Iu u + c) t); [exact Hp0|].
+        apply cfit_event_is_derive; assumption.
+      * apply IH. exact HP'.
 Qed.
